@@ -183,6 +183,43 @@ Proof.
 Qed.
 Print Assumptions C18_no_error.
 
+(* Aggregate is not atomic (one gevent.sleep(0) per registered metric; metric names are a snapshot taken at
+   its start, a metric's sources a snapshot taken after its yield).  Whatever other greenlets record inside
+   those yields - first values of new metrics and new sources included - every total reported for a counter
+   metric is the exact sum of the increments of a PREFIX of the concurrent history: the history before
+   Aggregate started plus the first j batches; nothing recorded up to that point is lost or counted twice. *)
+Theorem C18_sum_concurrent : forall cap sel pcts types ops sched m ty k out st' per q n,
+  alookup Z.eqb m types = Some ty -> is_sum_type ty = true -> inc_only m (ops ++ concat sched) ->
+  let st := exec cap init_state ops in
+  aggregate_il cap sel (st_now st) pcts types (map fst (st_data st)) st sched = (st', ROk out) ->
+  alookup Z.eqb m out = Some per -> alookup key_eqb k per = Some (TNum q, n) ->
+  exists j, (j <= length sched)%nat /\ q == inc_sum sel m k (ops ++ concat (firstn j sched)).
+Proof.
+  intros cap sel pcts types ops sched m ty k out st' per q n Hty Hsum Hinc st Hagg Hper Hk.
+  destruct (aggregate_il_prefix _ _ _ _ _ _ _ _ _ _ _ _ _ Hagg Hty Hper) as (j & Hj & Hp).
+  exists j. split; [exact Hj|]. unfold st in Hp. rewrite <- exec_app in Hp.
+  assert (Hinc' : inc_only m (ops ++ concat (firstn j sched))).
+  { unfold inc_only in *. rewrite Forall_app in *. destruct Hinc as [H1 H2]. split; [exact H1|].
+    rewrite Forall_forall in *. intros l Hl. apply H2. rewrite <- (firstn_skipn j sched), concat_app, in_app_iff. left. exact Hl. }
+  destruct (exec_inc_sum cap sel k m _ init_state Hinc' (Forall_nil _)) as [Hnum Hks].
+  rewrite init_series in Hks. cbn [key_sum] in Hks.
+  destruct (agg_metric_num _ _ _ _ _ _ k Hsum Hnum Hp) as [A B].
+  destruct (key_present_dec sel k (get_series (exec cap init_state (ops ++ concat (firstn j sched))) m)) as [Hex|Hno].
+  - destruct (A Hex) as (q' & n' & E & Hq & _). rewrite E in Hk. inversion Hk; subst q' n'. rewrite Hq, Hks. ring.
+  - rewrite (B Hno) in Hk. discriminate.
+Qed.
+Print Assumptions C18_sum_concurrent.
+
+(* ... and without concurrent updates it is the atomic Aggregate the other theorems speak about. *)
+Theorem C18_aggregate_atomic : forall cap sel pcts types ops,
+  let st := exec cap init_state ops in
+  aggregate_il cap sel (st_now st) pcts types (map fst (st_data st)) st [] =
+  (st, aggregate sel (st_now st) pcts types (st_data st)).
+Proof.
+  intros cap sel pcts types ops st. apply aggregate_il_nil. apply exec_data_nodup. constructor.
+Qed.
+Print Assumptions C18_aggregate_atomic.
+
 (* ---- non-vacuity ------------------------------------------------------------------------------ *)
 Definition ex_s : source := (Some 1%Z, Some 2%Z, None, None).
 Definition ex_s' : source := (Some 7%Z, Some 2%Z, Some 3%Z, None).
@@ -210,3 +247,14 @@ Proof.
   - repeat constructor.
   - split; vm_compute; reflexivity.
 Qed.
+
+(* one yield: another greenlet adds a new source to metric 1 and the first value of metric 4 while Aggregate
+   is running: metric 1 reports 1 + 5, metric 4 (not in the snapshot of names) is not reported, nothing raises *)
+Example C18_concurrent_example :
+  let st := exec 2 init_state [Inc 1 ex_s 1] in
+  exists st' out,
+    aggregate_il 2 default_key_selector (st_now st) [] [(1%Z, T_Counter); (4%Z, T_Counter)] (map fst (st_data st)) st
+                 [[Inc 1 ex_s' 5; Inc 4 ex_s 2]] = (st', ROk out) /\
+    agg_match out [(1%Z, [([Some 2%Z; None], (ONum 6, 2%Z))])] = true /\
+    map fst (st_data st') = [1%Z; 4%Z].
+Proof. cbv zeta. do 2 eexists. split; [vm_compute; reflexivity|]. split; vm_compute; reflexivity. Qed.
